@@ -309,8 +309,14 @@ func (s *server) processChunkWithReordering(stream clusterv1.ChunkedSyncService_
 	buffer.lastActivity = time.Now()
 
 	if req.ChunkIndex == buffer.expectedIndex {
+		applied := session.chunksReceived
 		if processErr := s.processExpectedChunk(stream, session, req); processErr != nil {
 			return processErr
+		}
+		if session.chunksReceived == applied {
+			// The chunk was rejected (checksum mismatch) and answered as such: the sender
+			// retries the same index, which must still be the expected one.
+			return nil
 		}
 		buffer.expectedIndex++
 
@@ -488,8 +494,13 @@ func (s *server) processBufferedChunks(stream clusterv1.ChunkedSyncService_SyncP
 					Msg("processing buffered chunk")
 			}
 
+			applied := session.chunksReceived
 			if processErr := s.processExpectedChunk(stream, session, chunk); processErr != nil {
 				return processErr
+			}
+			if session.chunksReceived == applied {
+				// A buffered chunk that fails its checksum was not applied: do not skip it.
+				break
 			}
 			buffer.expectedIndex++
 		} else {
